@@ -105,6 +105,26 @@ Lemma keys_complete : forall n k, length k = n -> In k (keys n).
 Proof.
   induction n; intros k H.
   - destruct k; try discriminate. left. auto.
-  - destruct k as [|b k]; try discriminate. simpl in H. inversion H.
-    simpl. apply in_or_app. destruct b; [right|left]; apply in_map; apply IHn; auto.
+  - destruct k as [|b k]; try discriminate. simpl in H. assert (length k = n) as L by lia.
+    simpl. apply in_or_app. destruct b; [right|left]; apply in_map; apply IHn; exact L.
 Qed.
+
+Lemma cpt_table_spec : forall c,
+  (forall k row, In (k, row) (cpt_table c) ->
+     length k = length (batoms (c_body c)) /\
+     forall j, nth j row 0 = if beval (c_body c) (combine (batoms (c_body c)) k) then nth j (prior c) 0
+                             else (if Nat.eqb j 0 then 1 else 0)) /\
+  (forall k, length k = length (batoms (c_body c)) -> exists row, In (k, row) (cpt_table c)).
+Proof.
+  intros c. split.
+  - intros k row H. destruct (cpt_table_rows c k row H) as [A B]. split; auto.
+    intros j. subst row. apply row_entries.
+  - intros k H. exists (choice_row c (combine (batoms (c_body c)) k)).
+    unfold cpt_table. apply in_map_iff. exists k. split; auto. apply keys_complete. auto.
+Qed.
+
+Lemma rows_are_distributions : forall c r,
+  Qsum (choice_row c r) == 1 /\
+  ((forall h, In h (c_heads c) -> 0 <= snd h) -> Qsum (map snd (c_heads c)) <= 1 ->
+   forall x, In x (choice_row c r) -> 0 <= x).
+Proof. intros c r. split. apply row_sum. apply row_nonneg. Qed.
